@@ -134,6 +134,15 @@ pub enum Site {
     Two,
 }
 
+/// A pinned draw: the outcome itself or the uniform variate handed to the sampler
+#[derive(Debug, Clone, Copy, PartialEq)]
+pub enum Pin {
+    /// the index to return
+    Index(usize),
+    /// the uniform variate in `[0, 1)` to sample with
+    Variate(f64),
+}
+
 /// An event of the log
 #[derive(Debug, Clone, PartialEq)]
 pub enum Event {
@@ -160,7 +169,7 @@ pub enum Event {
 #[derive(Default)]
 struct Config {
     draw_seed: Option<u64>,
-    draw_table: Option<HashMap<(Site, usize, u64), usize>>,
+    draw_table: Option<HashMap<(Site, usize, u64), Pin>>,
     inject: Option<State>,
 }
 
@@ -202,7 +211,7 @@ pub fn set_draw_seed(seed: Option<u64>) {
 }
 
 /// Pin the listed draws to the given indices (consulted before the seed)
-pub fn set_draw_table(table: Option<HashMap<(Site, usize, u64), usize>>) {
+pub fn set_draw_table(table: Option<HashMap<(Site, usize, u64), Pin>>) {
     with_config(|c| c.draw_table = table);
     ACTIVE.store(true, Ordering::SeqCst);
 }
@@ -345,12 +354,15 @@ pub(crate) fn chance_draw(vid: usize, pass: u64, probs: &[f64]) -> Option<usize>
         return None;
     }
     let res = with_config(|c| {
-        if let Some(ix) = c
+        if let Some(pin) = c
             .draw_table
             .as_ref()
             .and_then(|t| t.get(&(Site::Chance, vid, pass)))
         {
-            Some((*ix).min(probs.len() - 1))
+            Some(match pin {
+                Pin::Index(ix) => (*ix).min(probs.len() - 1),
+                Pin::Variate(u) => inverse_cdf(probs, *u),
+            })
         } else {
             c.draw_seed
                 .map(|seed| inverse_cdf(probs, variate(seed, Site::Chance, vid, pass)))
@@ -371,8 +383,11 @@ pub(crate) fn player_draw(vid: usize, pass: u64, strat: &[f64]) -> Option<usize>
     }
     let (site, info) = player_site(vid);
     let res = with_config(|c| {
-        if let Some(ix) = c.draw_table.as_ref().and_then(|t| t.get(&(site, info, pass))) {
-            Some((*ix).min(strat.len() - 1))
+        if let Some(pin) = c.draw_table.as_ref().and_then(|t| t.get(&(site, info, pass))) {
+            Some(match pin {
+                Pin::Index(ix) => (*ix).min(strat.len() - 1),
+                Pin::Variate(u) => crate::solve::verif_multinomial(strat, *u),
+            })
         } else {
             c.draw_seed
                 .map(|seed| crate::solve::verif_multinomial(strat, variate(seed, site, info, pass)))
